@@ -228,14 +228,20 @@ def shard_entry(argv):
                 except Exception:
                     errs.append(traceback.format_exc())
 
+            from .hooks import YieldInjector
+
             ths = [threading.Thread(target=run, args=(c,), daemon=True) for c in extra]
-            for t in ths:
-                t.start()
-            try:
-                mod.shard_main(ctx)
-            finally:
+            # injected yields at statement starts inside the anchored library files multiply the interleavings actually seen
+            with YieldInjector(REPO, anchors or [], seed=seed * 31 + k, p=float(os.environ.get("VERIF_YIELD_P", "0.02" if tier == "thorough" else "0")), calls=True) as yi:
                 for t in ths:
-                    t.join(timeout=600)
+                    t.start()
+                try:
+                    mod.shard_main(ctx)
+                finally:
+                    for t in ths:
+                        t.join(timeout=600)
+            ctx.count("yield-injection:library-lines-seen", yi.lines)
+            ctx.count("yield-injection:yields-injected", yi.injected)
             modgen.cleanup(force=True)
             if errs:
                 res["crashed"] = errs[0]
@@ -299,9 +305,9 @@ def run_check(prop, tier, replay=None):
     procs = []
     for k in range(nsh):
         out = os.path.join(work, f"shard{k}.json")
-        # configuration dimension: every eighth shard runs the library with assertions stripped (python -O); the library uses
+        # configuration dimension: every fourth shard runs the library with assertions stripped (python -O); the library uses
         # assert statements on its paths, the properties do not depend on the interpreter's optimisation mode
-        opt = ["-O"] if (k % 8 == 7 and not os.environ.get("VERIF_NO_O")) else []
+        opt = ["-O"] if (k % 4 == 1 and not os.environ.get("VERIF_NO_O")) else []
         p = subprocess.Popen(
             [PY, "-B"] + opt + ["-m", "vmon.core", "--shard", prop, tier, str(seed), str(k), str(nsh), out],
             cwd=VERIF, env=env, stdout=subprocess.PIPE, stderr=subprocess.STDOUT,
